@@ -8,9 +8,13 @@ rm -rf $MX/repo; rsync -a --exclude target --exclude .git $SRC/ $MX/repo/
 [ -f $MX/repo/Cargo.lock ] || cp /repo/Cargo.lock $MX/repo/
 cd $MX/repo && git init -q . 2>/dev/null && git add -A >/dev/null 2>&1 && git -c user.email=a@b -c user.name=x commit -qm base >/dev/null 2>&1
 export ASCENT_REPO=$MX/repo VERIF_WORK=$MX/work VERIF_EVIDENCE_DIR=$MX/evidence
-SEEDS=${@:-$(ls $V/seeded)}
+SEEDS=${@:-$(ls $V/seeded | grep -v -E "EXPECTED|RECONFIRM")}
+# sharding: SHARD=i SHARDS=n runs every n-th item (seeds and selftest patches alike); the unchanged-tree line is printed by shard 0
+SHARD=${SHARD:-0}; SHARDS=${SHARDS:-1}
+pick() { i=0; for x in "$@"; do [ $((i % SHARDS)) -eq $SHARD ] && echo $x; i=$((i+1)); done; }
+SEEDS=$(pick $SEEDS)
 PROPS=$(python3 -c "import json;print(' '.join(c['property_id'] for c in json.load(open('$V/MANIFEST.json'))['checks']))")
-echo "unchanged:$(for p in $PROPS; do out=$(cd $V && ./check $p 2>/dev/null); echo "$out" | grep -q "^VIOLATION\|CHECK-BROKEN" && echo -n " $p(ALARM)"; done) [must be empty]"
+[ $SHARD -eq 0 ] && echo "unchanged:$(for p in $PROPS; do out=$(cd $V && ./check $p 2>/dev/null); echo "$out" | grep -q "^VIOLATION\|CHECK-BROKEN" && echo -n " $p(ALARM)"; done) [must be empty]"
 for s in $SEEDS; do
   cd $MX/repo && git checkout -q -- . && git apply $V/seeded/$s/patch.diff 2>/dev/null || { echo "$s: PATCH-DOES-NOT-APPLY"; continue; }
   fired=""
@@ -25,7 +29,7 @@ for s in $SEEDS; do
 done
 # self-tests of the checks: reverts of the repairs and hand-made mutants must be detected, benign refactorings must stay quiet
 if [ $# -eq 0 ]; then
-for f in $V/selftest/reverts/*.diff $V/selftest/mutants/*.diff $V/selftest/benign_*.diff; do
+for f in $(pick $V/selftest/reverts/*.diff $V/selftest/mutants/*.diff $V/selftest/benign_*.diff); do
   name=$(basename $f .diff)
   cd $MX/repo && git checkout -q -- . && git apply $f 2>/dev/null || { echo "selftest $name: PATCH-DOES-NOT-APPLY"; continue; }
   fired=""
